@@ -440,7 +440,7 @@ func c02Load(tc *c02Case, allowExternal bool) *c02Loaded {
 					p = filepath.ToSlash(rel)
 				}
 			}
-			res.reads = append(res.reads, p)
+			res.reads = append(res.reads, strings.ReplaceAll(p, filepath.ToSlash(dir), "<T>"))
 			return openapi3.ReadFromFile(l, u)
 		}
 	}
